@@ -206,6 +206,104 @@ def generic_expected(case):
     return out + ["end"] + tail
 
 
+# ------------------------------------------------------------------ overload matrix family (own small model)
+
+OV_TYPES = ["int", "long", "float", "string", "boolean", "bit", "char", "int[]", "long[]", "float[]", "string[]", "boolean[]",
+            "bit[]", "char[]", "P", "Q"]
+OV_VARS = {"int": ("vi", "7"), "long": ("vl", "8L"), "float": ("vf", "1.5f"), "string": ("vs", '"s"'), "boolean": ("vb", "true"),
+           "bit": ("vt", "1b"), "char": ("vc", "'c'"), "int[]": ("ai", "{1, 2}"), "long[]": ("al", "{1L}"), "float[]": ("af", "{1.0f}"),
+           "string[]": ("as", '{"a"}'), "boolean[]": ("ab", "{true}"), "bit[]": ("at", "{1b, 0b}"), "char[]": ("ac", "{'a'}"),
+           "P": ("vp", "new P()"), "Q": ("vq", "new Q()")}
+
+
+@st.composite
+def overload_case(draw):
+    """One method name `m` carrying 2..7 overloads (1-2 parameters over primitive, array and class types) spread over a chain
+    K0 <- K1 <- K2: each declared at some level (virtual or plain), a virtual one possibly overridden once further down; calls
+    with EXACTLY typed arguments through references of every static type that sees the overload, directly and through relay
+    methods using a bare or this-qualified call."""
+    depth = draw(st.integers(1, 3))
+    nsig = draw(st.integers(2, 7))
+    sigs, seen = [], set()
+    for _ in range(nsig):
+        ps = tuple(draw(st.lists(st.sampled_from(OV_TYPES), min_size=1, max_size=2)))
+        if ps in seen:
+            continue
+        seen.add(ps)
+        lvl = draw(st.integers(0, depth - 1))
+        virt = draw(st.booleans())
+        ov = draw(st.integers(lvl + 1, depth - 1)) if (virt and lvl + 1 <= depth - 1 and draw(st.booleans())) else None
+        relay = draw(st.sampled_from([None, "bare", "this"]))
+        sigs.append({"params": list(ps), "level": lvl, "virtual": virt, "override": ov, "relay": relay,
+                     "relay_level": draw(st.integers(lvl, depth - 1))})
+    calls = []
+    for _ in range(draw(st.integers(2, 8))):
+        i = draw(st.integers(0, len(sigs) - 1))
+        sg = sigs[i]
+        dyn = draw(st.integers(sg["level"], depth - 1))
+        use_relay = sg["relay"] is not None and draw(st.booleans())
+        lo = sg["relay_level"] if use_relay else sg["level"]
+        if dyn < lo:
+            dyn = lo
+        stat = draw(st.integers(lo, dyn))
+        calls.append({"sig": i, "dyn": dyn, "stat": stat, "relay": use_relay})
+    # some levels are generic classes (type parameter E, unused by the overloads): their method tables are built by the
+    # separate instantiation path of the run time
+    gen = [draw(st.integers(0, 2)) == 0 for _ in range(depth)]
+    return {"kind": "overload", "depth": depth, "sigs": sigs, "calls": calls, "generic": gen}
+
+
+def _ov_label(level, params):
+    return f"K{level}.m({','.join(params)})"
+
+
+def overload_program(case):
+    gen = case.get("generic") or [False] * case["depth"]
+    out = ["class P { public constructor() -> P { return this; } }", "class Q { public constructor() -> Q { return this; } }"]
+
+    def tname(lv):  # the type as written in main
+        return f"K{lv}" + ("<int>" if gen[lv] else "")
+
+    for lv in range(case["depth"]):
+        self_t = f"K{lv}" + ("<E>" if gen[lv] else "")
+        head = f"class {self_t}"
+        if lv:
+            head += f" extends K{lv - 1}" + (("<E>" if gen[lv] else "<int>") if gen[lv - 1] else "")
+        body = [f"public constructor() -> {self_t} {{ " + ("super(); " if lv else "") + "return this; }"]
+        for i, sg in enumerate(case["sigs"]):
+            plist = ", ".join(f"{t} p{k}" for k, t in enumerate(sg["params"]))
+            if sg["level"] == lv:
+                kw = "virtual " if sg["virtual"] else ""
+                body.append(f"public {kw}function m({plist}) -> int {{ echo(\"{_ov_label(lv, sg['params'])}\"); return {100 * i + lv}; }}")
+            if sg["override"] == lv:
+                body.append(f"public override function m({plist}) -> int {{ echo(\"{_ov_label(lv, sg['params'])}\"); return {100 * i + lv}; }}")
+            if sg["relay"] is not None and sg["relay_level"] == lv:
+                recv = "this." if sg["relay"] == "this" else ""
+                args = ", ".join(f"p{k}" for k in range(len(sg["params"])))
+                body.append(f"public function r{i}({plist}) -> int {{ return {recv}m({args}); }}")
+        out.append(head + " {\n    " + "\n    ".join(body) + "\n}")
+    main = [f"{t} {v} = {init};" for t, (v, init) in OV_VARS.items()]
+    for n, c in enumerate(case["calls"]):
+        sg = case["sigs"][c["sig"]]
+        args = ", ".join(OV_VARS[t][0] for t in sg["params"])
+        name = f"r{c['sig']}" if c["relay"] else "m"
+        # a generic instantiation converts to no other type in the analyser (recorded finding generic-base-args): a reference
+        # to an object of a generic class is declared with exactly that type; base-typed dispatch then goes through relays
+        stat = c["dyn"] if (gen[c["dyn"]] or gen[c["stat"]]) else c["stat"]
+        main.append(f"{tname(stat)} o{n} = new {tname(c['dyn'])}();")
+        main.append(f"echo(o{n}.{name}({args}));")
+    return "\n".join(out) + "\nfunction main() -> void {\n    " + "\n    ".join(main) + "\n}\n"
+
+
+def overload_expected(case):
+    out = []
+    for c in case["calls"]:
+        sg = case["sigs"][c["sig"]]
+        lvl = sg["override"] if (sg["override"] is not None and sg["override"] <= c["dyn"]) else sg["level"]
+        out += [_ov_label(lvl, sg["params"]), str(100 * c["sig"] + lvl)]
+    return out
+
+
 class C08(Check):
     prop = "C08"
     rule = ("class programs: hierarchies (depth<=4), tracing field initialisers, constructors with explicit/implicit super, "
@@ -220,6 +318,30 @@ class C08(Check):
         if isinstance(case, dict) and case.get("kind") == "generic" and case.get("typed_super") and isinstance(why, dict) \
                 and "no accessible base constructor matches" in str(why.get("why")):
             return "generic-base-args"
+        return None
+
+    def overload_run(self, case, sc, stats=None):
+        want = overload_expected(case)
+        src = overload_program(case)
+        r = progrun.run_cli(self.drv, sc, src)
+        if r.proc.timeout:
+            return None
+        if stats is not None:
+            kinds = {tuple(sg["params"]) for sg in case["sigs"]}
+            same_arity = any(a != b and len(a) == len(b) for a in kinds for b in kinds)
+            stats.record(case, same_arity and len(case["calls"]) >= 2,
+                         tags=["overload_family"] + (["overload_generic_level"] if any(case.get("generic") or []) else []) + (["overload_override"] if any(sg["override"] is not None for sg in case["sigs"]) else [])
+                         + (["overload_relay"] if any(c["relay"] for c in case["calls"]) else []),
+                         sample={"source": src, "expected": want} if len(src) < 2600 else None)
+        if r.diag and r.diag["cat"] in ("Lexical", "Parse", "Semantic"):
+            return {"why": f"overload program rejected: {r.diag}", "source": src}
+        if r.proc.crashed() or r.rc != 0:
+            return {"why": f"overload program failed: rc={r.rc} {r.stderr_lines[-1:]}", "source": src, **r.proc.brief()}
+        got = list(r.stdout_lines)
+        if got != want:
+            k = next((i for i, (a, b) in enumerate(zip(got, want)) if a != b), min(len(got), len(want)))
+            return {"why": f"overload trace differs at line {k}: expected {want[k:k + 2]}, got {got[k:k + 2]}",
+                    "expected": want, "got": got, "source": src}
         return None
 
     def generic_run(self, case, sc, stats=None):
@@ -249,6 +371,8 @@ class C08(Check):
     def run_case(self, p, sc, stats=None):
         if p.get("kind") == "generic":
             return self.generic_run(p, sc, stats)
+        if p.get("kind") == "overload":
+            return self.overload_run(p, sc, stats)
         try:
             ref = ref_class.run_reference(p)
         except ref_classic.Undocumented:
@@ -303,6 +427,9 @@ def _worker(widx, wseed, tier, check):
         if f:
             failures.append(f)
         f = hyp_search(generic_case(), prop, common.derive_seed(wseed, "generic"), 120 if tier == "quick" else 3000, stats)
+        if f:
+            failures.append(f)
+        f = hyp_search(overload_case(), prop, common.derive_seed(wseed, "overload"), 120 if tier == "quick" else 3000, stats)
         if f:
             failures.append(f)
     return {"stats": stats.export(), "failures": failures}
